@@ -121,6 +121,24 @@ func settle(d time.Duration) {
 // finish evaluates clause 5 on the virtual clock, closes the transport, and assembles the verdict (vt only).
 func (s *session) finish(desc any, sig string, recoverable bool) vrun.Result {
 	settle(vBound)
+	// "reads continue on the new connection": a message the peer queues on the newest usable connection of a live
+	// transport has to be read (a read loop still parked on a replaced connection never sees it)
+	if s.rec.situation() == "live" {
+		if cur := s.w.live(); cur != nil {
+			before := s.reads.Load()
+			cur.feed("probe-after-the-last-failure")
+			settle(0)
+			if s.reads.Load() == before {
+				settle(vBound)
+			}
+			cur.mu.Lock()
+			queued := len(cur.rq)
+			cur.mu.Unlock()
+			if queued > 0 && s.rec.situation() == "live" && s.w.live() == cur {
+				s.add(finding{4, clReads, "read-stalled:message-queued-on-the-live-connection-never-read", map[string]any{"connection": cur.id, "queued": queued, "virtual_wait": vBound.String(), "dials": s.w.snap().Dials}})
+			}
+		}
+	}
 	final := s.rec.situation()
 	ws, rs := s.rec.snap()
 	sn := s.w.snap()
